@@ -8,10 +8,12 @@ def hook_commits():
     out = subprocess.run(["git", "-C", "/repo", "log", "--format=%H %s"], capture_output=True, text=True).stdout
     return [l.split()[0] for l in out.splitlines() if "verif hook" in l]
 
-TRUSTED = ("Every scenario runs twice: without a logger and (a quarter as many runs) with a Trace-level logger installed. "
-           "Trusted base: the simulator crate /verif/sim (tape, scheduler, injectors, oracles), rustc/cargo, "
-           "and that the build profile (opt-level 2, overflow-checks, debug-assertions, --cfg flipdot_verif) behaves like the "
-           "profile the test suite uses. Sampling: a clean batch is evidence for the runs explored, not a proof.")
+TRUSTED = ("Every scenario runs without a logger and (a quarter as many runs) with a Trace-level logger installed; the whole check then "
+           "runs a second time, a quarter as large, on a plain release build of the same sources (no overflow checks, no debug assertions), "
+           "the first pass being on a build with both switched on as the repository's own tests have them. "
+           "Trusted base: the simulator crate /verif/sim (tape, scheduler, injectors, oracles, reference models), rustc/cargo, the "
+           "--cfg flipdot_verif sleep seam. Sampling: a clean batch is evidence for the runs explored, not a proof; "
+           "DESIGN.md section 12 lists the seeded changes that stay out of reach and why.")
 
 CLAIMED = {
  "C02": dict(cat="fault_enumeration", design="5/C02",
